@@ -6,6 +6,7 @@ package c04
 import (
 	"bytes"
 	"fmt"
+	"sort"
 
 	"github.com/Tom-Johnston/mamba/graph"
 	"github.com/Tom-Johnston/mamba/graph/search"
@@ -19,7 +20,7 @@ func init() {
 	engine.Register(&engine.Property{
 		ID:    "C04",
 		Level: "fault_enumeration",
-		Rule: "for every configuration (n, a, m, predicate placement) with n <= 7 (8 thorough; 9 at seeded positions) and EVERY save position k in 0..len(output) (before the first Next, after each k-th, after exhaustion): a fresh iterator is advanced k times (checked against the reference log S of an uninterrupted run), saved, loaded, and then original and loaded copy are advanced alternately; both must yield exactly S[k:], in order, and then report exhaustion twice. Chains save-load-advance-save-load of depth 3 at seeded positions. " +
+		Rule: "for every configuration (n, a, m, predicate placement) with n <= 7 (8 thorough; 9 at seeded positions) and EVERY save position k in 0..len(output) (before the first Next, after each k-th, after exhaustion): a fresh iterator is advanced k times (checked against the reference log S of an uninterrupted run), saved, loaded, and then original and loaded copy are advanced alternately; both must yield exactly S[k:], in order, and then report exhaustion twice. Chains save-load-advance-save-load of depth 3 at seeded positions; periodic checkpoints: ONE iterator saved again and again while it advances, into the same buffer (reset or growing) and into fresh buffers, each checkpoint loaded on its own. " +
 			"non-trivial = save position strictly inside the output (0 < k < len(S)); distinct = (configuration, k) by construction",
 		Assumptions: []string{
 			"the reference log S is the output of one uninterrupted run of the same configuration in the same process (C03 judges S itself)",
@@ -29,7 +30,7 @@ func init() {
 		Run:            run,
 		MinEvaluations: map[string]int{"quick": 300000, "thorough": 20000000},
 		MinNontrivial:  map[string]int{"quick": 3000, "thorough": 30000},
-		RequiredObs:    []string{"save_points", "save_points_after_exhaustion", "save_points_before_first", "chains", "interleaved_steps", "configs_with_predicate"},
+		RequiredObs:    []string{"saves_on_same_iterator", "save_points", "save_points_after_exhaustion", "save_points_before_first", "chains", "interleaved_steps", "configs_with_predicate"},
 	})
 }
 
@@ -254,6 +255,73 @@ func (m *mon) chain(S []string, ks []int) bool {
 	return true
 }
 
+// checkpoints: ONE iterator is saved again and again while it advances (periodic checkpointing), into the same
+// writer value: mode 0 = one bytes.Buffer that is Reset between saves, mode 1 = one bytes.Buffer that keeps growing
+// (each checkpoint = the bytes appended by that Save), mode 2 = a fresh buffer per save.  Every checkpoint must load
+// on its own and continue with the remaining reference output.
+func (m *mon) checkpoints(S []string, positions []int, mode int) bool {
+	c := m.c
+	var it *search.GraphIterator
+	if pi := c.Call("resume|"+m.cf.name()+"|new", func() { it = m.cf.fresh() }); pi != nil {
+		return false
+	}
+	var shared bytes.Buffer
+	pos := 0
+	for _, k := range positions {
+		if k < pos {
+			continue
+		}
+		kk := k
+		if kk > len(S) {
+			kk = len(S) + 1
+		}
+		if !m.advance(it, "checkpointed-original", S, pos, kk-pos, k) {
+			return false
+		}
+		pos = kk
+		var data []byte
+		key := fmt.Sprintf("resume|%s|checkpoint-mode%d", m.cf.name(), mode)
+		var pi *engine.PanicInfo
+		switch mode {
+		case 0:
+			pi = c.CallN(key, int64(k), func() { shared.Reset(); it.Save(&shared) })
+			data = append([]byte(nil), shared.Bytes()...)
+		case 1:
+			before := shared.Len()
+			pi = c.CallN(key, int64(k), func() { it.Save(&shared) })
+			data = append([]byte(nil), shared.Bytes()[before:]...)
+		default:
+			var b bytes.Buffer
+			pi = c.CallN(key, int64(k), func() { it.Save(&b) })
+			data = append([]byte(nil), b.Bytes()...)
+		}
+		if pi != nil {
+			m.viol(fmt.Sprintf("panic@%s|Save|checkpoint-mode%d", engine.SiteNoLine(pi.Site), mode), k, map[string]interface{}{}, pi.String(), "Save returns")
+			return false
+		}
+		var lo *search.GraphIterator
+		if pi := c.CallN(key+"|Load", int64(k), func() {
+			pre, pru := m.cf.funcs()
+			lo = search.Load(bytes.NewReader(data), pre, pru)
+		}); pi != nil {
+			m.viol(fmt.Sprintf("panic@%s|Load|checkpoint-mode%d", engine.SiteNoLine(pi.Site), mode), k, map[string]interface{}{"checkpoint_bytes": len(data), "earlier_saves_on_this_iterator": c.ObsGet("saves_on_same_iterator")}, pi.String(), "every checkpoint written by Save loads on its own")
+			return false
+		}
+		c.Obs("saves_on_same_iterator", 1)
+		rem := len(S) - pos + 2
+		if rem > 40 {
+			rem = 40
+		}
+		if rem < 0 {
+			rem = 2
+		}
+		if !m.advance(lo, fmt.Sprintf("loaded-from-checkpoint-mode%d", mode), S, pos, rem, k) {
+			return false
+		}
+	}
+	return true
+}
+
 func configs(thorough bool) []config {
 	var r []config
 	triFree, maxdeg3 := -1, -1
@@ -327,6 +395,26 @@ func run(c *engine.Ctx) {
 						k2 := k1 + r.Intn(len(S)-k1+1)
 						k3 := k2 + r.Intn(len(S)-k2+1)
 						if !m.chain(S, []int{k1, k2, k3}) {
+							return
+						}
+					}
+					// periodic checkpoints on one iterator
+					for mode := 0; mode < 3; mode++ {
+						var positions []int
+						if len(S) <= 120 {
+							for k := 0; k <= len(S)+1; k++ {
+								positions = append(positions, k)
+							}
+						} else {
+							r := c.Rand("c04-checkpoints-"+cf.name(), mode)
+							positions = append(positions, 0)
+							for t := 0; t < 50; t++ {
+								positions = append(positions, 1+r.Intn(len(S)))
+							}
+							positions = append(positions, len(S), len(S)+1)
+							sort.Ints(positions)
+						}
+						if !m.checkpoints(S, positions, mode) {
 							return
 						}
 					}
